@@ -30,10 +30,24 @@
 (*   root cache: Kss - (Ksx R)(Ksx R)^T  with R R^T = A^-1, R = L^-T for   *)
 (*               A = L L^T,                                                *)
 (*   likelihood(posterior) = posterior + S_test exactly once.              *)
+(*                                                                         *)
+(* Part "knobs": the NUMERICAL-accuracy settings.  The lattice above fixes *)
+(* WHICH algorithm runs; the knobs fix HOW ACCURATELY an iterative one     *)
+(* runs.  Each knob has its default and its documented test-time values;   *)
+(* a cell leaves every knob at its default except at most MaxOff of them   *)
+(* ("tightened alone", and pairs), crossed with every path selector.  For  *)
+(* each cell the spec derives the precision the documentation promises for *)
+(* the mean and for the covariance (exact / CG residual 10^e / full-rank   *)
+(* Lanczos / nothing); the replay sets exactly the settings of the cell on *)
+(* a model with enough training points that a loose tolerance is visible,  *)
+(* and compares with the dense conditional at a tolerance derived from     *)
+(* that precision.  A knob that is silently not honoured (for instance     *)
+(* eval_cg_tolerance being overridden by the ambient cg_tolerance) shows   *)
+(* as an accuracy failure of the cells that tighten it alone.              *)
 (***************************************************************************)
 EXTENDS LinAlg, TLC
 
-CONSTANTS Part, Instances
+CONSTANTS Part, Instances, MaxOff
 
 VARIABLES c, out     \* out: the exact expectation handed to the replay ("lin" instances)
 vars == <<c, out>>
@@ -53,6 +67,75 @@ MeaningOf(s) == [mean |-> "conditional-mean", cov |-> IF s.skipvar THEN "zero" E
 
 \* cells whose covariance path is irrelevant collapse to the same path (no spurious distinctions)
 LatticeOK == Part = "lattice" => (c.skipvar => PathOf(c).covar = "zero") /\ (~c.skipvar => PathOf(c).covar # "zero")
+
+\* ============================== knobs ===========================================================
+\* path selectors (full product):
+\*   nclass   training size n against the two size defaults: n <= 100 = default max_root_decomposition_size,
+\*            100 < n <= 800 = default max_cholesky_size, n > 800 (CG / Lanczos selected by size alone)
+\*   mcs      max_cholesky_size: untouched, 0, n-1, n            (Cholesky iff n <= max_cholesky_size)
+\*   solves / rootfast   fast_computations(solves=, covar_root_decomposition=)  (FALSE: Cholesky regardless of size)
+\*   fpv      fast_pred_var
+Selectors == [nclass : {"le100", "gt100", "gt800"}, mcs : {"default", "zero", "below", "equal"}, solves : BOOLEAN, rootfast : BOOLEAN, fpv : BOOLEAN]
+
+\* accuracy knobs: default first
+\*   evaltol  eval_cg_tolerance = 10^e (default 1e-2): "relative residual tolerance for terminating CG when making predictions"
+\*   cgtol    cg_tolerance = 10^e (default 1): the TRAINING-time tolerance; ExactGP.__call__ replaces it by eval_cg_tolerance
+\*            around exact_prediction, where every solve of the posterior happens (the caches are computed lazily there)
+\*   maxiter  max_cg_iterations: 1000 / raised (4000) / lowered (25 < n: CG is cut short, nothing is promised)
+\*   precond  preconditioner of CG: untouched (size 15 but inactive below min_preconditioning_size = 2000), off (size 0),
+\*            active with size 5 / 15 (min_preconditioning_size lowered to 0).  A preconditioner accelerates, it never changes the answer
+\*   rootsize max_root_decomposition_size (Lanczos rank of fast_pred_var's root): 100 / n / 2n / n/2
+\*   probes   fast_pred_var(num_probe_vectors): read by the interpolated (KISS) strategy only
+\*   trace    num_trace_samples, lq  max_lanczos_quadrature_iterations: log-determinant estimation only, never at eval
+KnobDom == [evaltol |-> {-2, -3, -4, -6}, cgtol |-> {0, -6, 2}, maxiter |-> {"default", "raised", "lowered"},
+            precond |-> {"default", "off", "active-small", "active-default"}, rootsize |-> {"default", "n", "twice", "half"},
+            probes |-> {1, 3}, trace |-> {"default", "one"}, lq |-> {"default", "raised"}]
+KnobSpace == [evaltol : KnobDom.evaltol, cgtol : KnobDom.cgtol, maxiter : KnobDom.maxiter, precond : KnobDom.precond,
+              rootsize : KnobDom.rootsize, probes : KnobDom.probes, trace : KnobDom.trace, lq : KnobDom.lq]
+KnobDefault == [evaltol |-> -2, cgtol |-> 0, maxiter |-> "default", precond |-> "default", rootsize |-> "default",
+                probes |-> 1, trace |-> "default", lq |-> "default"]
+KnobNames == DOMAIN KnobDefault
+OffDefault(k) == {f \in KnobNames : k[f] # KnobDefault[f]}
+\* linear_cg rejects (RuntimeError, by design) a tridiagonalisation bound above the iteration bound: with max_cg_iterations lowered to 25
+\* the quadrature bound cannot be raised to 50.  Such a combination is a usage error, not a cell
+Consistent(k) == ~(k.maxiter = "lowered" /\ k.lq = "raised")
+KnobCells == {s @@ k : s \in Selectors, k \in {kk \in KnobSpace : Cardinality(OffDefault(kk)) <= MaxOff /\ Consistent(kk)}}
+
+\* which algorithm: linear_operator's _solve / _choose_root_method
+BySize(s)  == s.mcs = "equal" \/ (s.mcs = "default" /\ s.nclass # "gt800")              \* n <= max_cholesky_size
+SolveBy(s) == IF ~s.solves \/ BySize(s) THEN "cholesky" ELSE "cg"
+RootBy(s)  == IF ~s.rootfast \/ BySize(s) THEN "cholesky" ELSE "lanczos"
+
+\* the precision the documentation promises.  The effective CG tolerance of a prediction is eval_cg_tolerance - NOT cg_tolerance
+CGPrec(s)   == IF s.maxiter = "lowered" THEN <<"none">> ELSE <<"residual", s.evaltol>>
+MeanPrec(s) == IF SolveBy(s) = "cholesky" THEN <<"exact">> ELSE CGPrec(s)
+\* Lanczos is an exact algorithm at rank >= n as long as its re-orthogonalisation succeeds; linear_operator's lanczos_tridiag stops early
+\* (beta <= 1e-6, or ten re-orthogonalisation passes fail) for some random probes - rarely at n <= 132 (the replay redraws the probe), but
+\* often enough at n ~ 800 (rank 803 of 804 and a covariance error of 1e-3 for 2 probes in 8 on a fixed-noise model) that nothing is promised there
+FullRank(s) == s.nclass # "gt800" /\ (s.rootsize \in {"n", "twice"} \/ (s.rootsize = "default" /\ s.nclass = "le100"))
+CovPrec(s)  == IF s.fpv THEN (IF RootBy(s) = "cholesky" THEN <<"exact">> ELSE IF FullRank(s) THEN <<"fullrank">> ELSE <<"none">>)
+               ELSE MeanPrec(s)                                     \* direct solve (Kxx+S)^-1 Kx* under the same tolerance as the mean
+Promise(s)  == [solve |-> SolveBy(s), root |-> RootBy(s), mean |-> MeanPrec(s), cov |-> CovPrec(s)]
+
+PrecRank(p) == IF p[1] = "none" THEN 0 ELSE IF p[1] = "residual" THEN 0 - p[2] ELSE 100
+With(s, f, v) == [s EXCEPT ![f] = v]
+
+KnobsOK ==
+  Part = "knobs" =>
+    \* knobs that are not prediction-accuracy knobs do not enter the promise: in particular the ambient cg_tolerance, tight or loose
+    /\ \A f \in {"cgtol", "probes", "trace", "lq", "precond"} : \A v \in KnobDom[f] : Consistent(With(c, f, v)) => Promise(With(c, f, v)) = Promise(c)
+    \* a direct algorithm is exact whatever the iterative knobs say
+    /\ (SolveBy(c) = "cholesky" => MeanPrec(c) = <<"exact">>) /\ (c.fpv /\ RootBy(c) = "cholesky" => CovPrec(c) = <<"exact">>)
+    \* tightening the documented knob ALONE is enough and is monotone
+    /\ \A e \in KnobDom.evaltol :
+          /\ (SolveBy(c) = "cg" /\ c.maxiter # "lowered" => MeanPrec(With(c, "evaltol", e)) = <<"residual", e>>)
+          /\ (e <= c.evaltol => PrecRank(MeanPrec(With(c, "evaltol", e))) >= PrecRank(MeanPrec(c)) /\ PrecRank(CovPrec(With(c, "evaltol", e))) >= PrecRank(CovPrec(c)))
+    \* the rank knob governs the Lanczos root only; without fast_pred_var the covariance shares the mean's solve
+    /\ (~(c.fpv /\ RootBy(c) = "lanczos") => \A v \in KnobDom.rootsize : Promise(With(c, "rootsize", v)) = Promise(c))
+    /\ (~c.fpv => CovPrec(c) = MeanPrec(c))
+    \* everything at its default on a model below both size defaults is the direct algorithm
+    /\ (c.mcs = "default" /\ c.nclass # "gt800" => MeanPrec(c) = <<"exact">> /\ CovPrec(c) = <<"exact">>)
+    /\ out = Promise(c)
 
 \* ============================== algebra =========================================================
 \* instance kinds:
@@ -98,8 +181,8 @@ AlgebraOK ==
 \* for the replay of "lin" instances: exact posterior mean / covariance / marginal covariance
 Expected(i) == [mean |-> PostMean(i), cov |-> PostCov(i), marg |-> Marginal(i)]
 
-Init == /\ IF Part = "lattice" THEN c \in Cells ELSE c \in Instances
-        /\ out = IF Part = "algebra" /\ c.kind = "lin" THEN Expected(c) ELSE IF Part = "lattice" THEN PathOf(c) ELSE <<>>
+Init == /\ IF Part = "lattice" THEN c \in Cells ELSE IF Part = "knobs" THEN c \in KnobCells ELSE c \in Instances
+        /\ out = IF Part = "knobs" THEN Promise(c) ELSE IF Part = "algebra" /\ c.kind = "lin" THEN Expected(c) ELSE IF Part = "lattice" THEN PathOf(c) ELSE <<>>
 Next == UNCHANGED vars
 Spec == Init /\ [][Next]_vars
 =============================================================================
